@@ -225,7 +225,10 @@ func (p *protocol) handleTransactionPayload(ctx context.Context, connection grpc
 		return err
 	}
 
-	// it's saved, remove the job
+	// it's saved, remove the job (there are no jobs when no node DID is configured)
+	if p.privatePayloadReceiver == nil {
+		return nil
+	}
 	return p.privatePayloadReceiver.Finished(ref)
 }
 
